@@ -278,5 +278,6 @@ def r4_channel(ctx: Context) -> None:
     # inverse map: id -> name
     f = ctx.func("black_it.plot.plot_results:_get_samplers_names")
     n = normaliser(prog, f)
-    inv_ok = any(isinstance(x, ast.DictComp) and src(x.key) == "v" and src(x.value) == "k" for x in ast.walk(f.node))
+    inv_ok = any(isinstance(x, ast.DictComp) and len(x.generators) == 1 and isinstance(x.generators[0].target, ast.Tuple) and len(x.generators[0].target.elts) == 2
+                 and src(x.key) == src(x.generators[0].target.elts[1]) and src(x.value) == src(x.generators[0].target.elts[0]) and src(x.generators[0].iter).endswith(".items()") for x in ast.walk(f.node))
     ctx.check(inv_ok, "R4.inverse", "plot_results._get_samplers_names:inverse", "names are looked up through the inverted table {id: name}", "the id->name inversion changed", f, f.node)
